@@ -6,7 +6,6 @@ import (
 	"fmt"
 	"io"
 	"runtime/debug"
-	"sort"
 	"strings"
 	"sync"
 
@@ -345,7 +344,7 @@ func runCase(c Case) (res result) {
 		case isIOFail(cr.err):
 			add("io-error-reached-consumer-unhandled:"+op, "%s: consumer got the underlying I/O error %q, which the handler did not return (handler returned %v)", op, msgOf(cr.err), msgsOf(outer.returned))
 		case !dirty:
-			add("spurious-error-with-correct-content:"+op, "%s: all buffers hold the digest's content, yet the consumer got %q (handler returned %v, handler log %v)", op, msgOf(cr.err), msgsOf(outer.returned), outer.log)
+			add("spurious-error-with-correct-content:"+op, "%s: all buffers hold the digest's content, yet the consumer got %q (handler returned %v, handler log %v)", op, msgOf(cr.err), msgsOf(outer.returned), outer.logString())
 		default:
 			// dirty regime: data integrity (or size/offset) error produced by validation
 		}
@@ -362,43 +361,54 @@ func runCase(c Case) (res result) {
 	// ---- O5: handler log ----
 	checkHandler := func(h *handler, hname string, below []string, belowComplete bool) {
 		if h.done != 1 {
-			add(fmt.Sprintf("done-count=%d:%s%s", h.done, hname, op), "%s: Done() was called %d times on the %shandler (want exactly 1); log %v", op, h.done, hname, h.log)
+			add(fmt.Sprintf("done-count=%d:%s%s", h.done, hname, op), "%s: Done() was called %d times on the %shandler (want exactly 1); log %v", op, h.done, hname, h.logString())
 		}
 		if h.afterDone > 0 {
-			add("onerror-after-done:"+hname+op, "%s: OnError was called after Done(); log %v", op, h.log)
+			add("onerror-after-done:"+hname+op, "%s: OnError was called after Done(); log %v", op, h.logString())
 		}
-		seen := map[string]int{}
+		var keys []string // distinct offered messages
+		var counts []int
 		for _, oe := range h.offered {
 			if oe == nil || oe == io.EOF {
 				add("onerror-with-nil-or-eof:"+hname+op, "%s: OnError(%v) was called", op, oe)
 				continue
 			}
-			seen[msgOf(oe)]++
-		}
-		belowSet := map[string]bool{}
-		for _, m := range below {
-			belowSet[m] = true
-		}
-		var keys []string
-		for k := range seen {
-			keys = append(keys, k)
-		}
-		sort.Strings(keys)
-		for _, k := range keys {
-			if seen[k] > 1 {
-				add("error-offered-twice:"+hname+op, "%s: error %q was offered to OnError %d times; log %v", op, k, seen[k], h.log)
+			m := msgOf(oe)
+			found := false
+			for i, k := range keys {
+				if k == m {
+					counts[i]++
+					found = true
+				}
 			}
-			if !belowSet[k] {
+			if !found {
+				keys = append(keys, m)
+				counts = append(counts, 1)
+			}
+		}
+		in := func(list []string, m string) bool {
+			for _, x := range list {
+				if x == m {
+					return true
+				}
+			}
+			return false
+		}
+		for i, k := range keys {
+			if counts[i] > 1 {
+				add("error-offered-twice:"+hname+op, "%s: error %q was offered to OnError %d times; log %v", op, k, counts[i], h.logString())
+			}
+			if !in(below, k) {
 				if strings.Contains(k, "io-fail ") || strings.Contains(k, "translated ") {
 					add("unknown-io-error-offered:"+hname+op, "%s: OnError got %q, which no underlying buffer produced (produced: %v)", op, k, below)
 				} else if !dirty {
-					add("foreign-error-offered-with-correct-content:"+hname+op, "%s: all buffers hold the digest's content, yet OnError got %q; log %v", op, k, h.log)
+					add("foreign-error-offered-with-correct-content:"+hname+op, "%s: all buffers hold the digest's content, yet OnError got %q; log %v", op, k, h.logString())
 				}
 			}
 		}
 		if belowComplete {
 			for _, m := range below {
-				if seen[m] == 0 {
+				if !in(keys, m) {
 					add("io-error-not-offered:"+hname+op, "%s: underlying buffer produced %q but it was never offered to OnError (offered %v; consumer ok=%v err=%s)", op, m, keys, cr.ok, msgOf(cr.err))
 				}
 			}
@@ -468,7 +478,7 @@ func runCase(c Case) (res result) {
 		cl := s.closes
 		s.mu.Unlock()
 		if cl != 1 {
-			add(fmt.Sprintf("source-closes=%d:%s:%s:%s", cl, s.role, op, c.Orig.Wrap), "%s: source %s (%s) was closed %d times, want exactly 1; handler log %v", op, s.name, s.role, cl, outer.log)
+			add(fmt.Sprintf("source-closes=%d:%s:%s:%s", cl, s.role, op, c.Orig.Wrap), "%s: source %s (%s) was closed %d times, want exactly 1; handler log %v", op, s.name, s.role, cl, outer.logString())
 		}
 	}
 
@@ -494,12 +504,7 @@ func runCase(c Case) (res result) {
 			class = "err:" + status.Code(cr.err).String() + ":" + firstWords(status.Convert(cr.err).Message(), 3)
 		}
 	}
-	nrepl := 0
-	for _, l := range outer.log {
-		if strings.HasPrefix(l, "  -> buffer") {
-			nrepl++
-		}
-	}
+	nrepl := outer.nrepl
 	res.outcome = fmt.Sprintf("%s|%s|%s|onerr=%d|repl=%d|delivered=%d|valid=%d|invalid=%d", op, class, regime, len(outer.offered), nrepl, len(cr.data), e.valid, e.invalid)
 	res.nontrivial = len(outer.offered) > 0
 	res.stitched = nrepl > 0
